@@ -272,6 +272,21 @@ func (g *gen) fixed(s *sut) []triple {
 	add("name-escaping-the-directories", 1, g.dirEntry(s, aFlows, "../../outside/evil.yaml", "evil: true\n", true),
 		g.badFlowEntry(s, 1, 0))
 	add("name-escaping-ok", 1, g.dirEntry(s, aQuotas, "../../outside/other.yaml", "other: 1\n", true), g.flowEntry(s, 2, 2, true))
+	withSub := func() []Ent {
+		d := append(g.baseDisk(s, 1), g.ent(s, aQuotas, "sub/q3.yaml", quotaYAML("q3.yaml", 1)))
+		sortEnts(d)
+		return d
+	}
+	for _, h := range []string{"configuration", "apply_flows"} {
+		out = append(out, triple{"sub-directories", h, http.MethodPut, true, withSub(), []PEntry{
+			g.dirEntry(s, aQuotas, "sub/q3.yaml", quotaYAML("q3.yaml", 2), true),
+			g.dirEntry(s, aQuotas, "newsub/q4.yaml", quotaYAML("q4.yaml", 1), true),
+			g.flowEntry(s, 2, 2, true)}})
+		out = append(out, triple{"sub-directories-bad-flow", h, http.MethodPut, true, withSub(), []PEntry{
+			g.dirEntry(s, aQuotas, "sub/q3.yaml", quotaYAML("q3.yaml", 2), true),
+			g.dirEntry(s, aQuotas, "newsub/q4.yaml", quotaYAML("q4.yaml", 1), true),
+			g.badFlowEntry(s, 2, 1)}})
+	}
 	for _, h := range []string{"configuration", "apply_flows"} {
 		out = append(out, triple{"not-json", h, http.MethodPut, false, g.baseDisk(s, 1), nil})
 		out = append(out, triple{"wrong-method", h, http.MethodPost, true, g.baseDisk(s, 1),
@@ -303,24 +318,36 @@ func (g *gen) random(s *sut) triple {
 	if g.r.Chance(1, 3) {
 		t.payload = append(t.payload, g.metricsEntry(s, metricsYAML(g.r.Range(1, 3))))
 	}
+	if g.r.Chance(1, 8) {
+		t.payload = append(t.payload, g.dirEntry(s, aFlows, "../quotas/q2.yaml", quotaYAML(quotaRel(2), g.r.Range(1, 3)), true))
+		t.label = "random-sibling-name"
+	}
+	if g.r.Chance(1, 12) {
+		t.payload = append(t.payload, g.dirEntry(s, aPathParams, "../../outside/x.yaml", "x: 1\n", true))
+		t.label = "random-escaping-name"
+	}
+	if g.r.Chance(1, 25) {
+		t.method = http.MethodPost
+		t.label = "random-wrong-method"
+	}
 	if bad {
 		switch g.r.Intn(5) {
 		case 0:
 			t.payload = append(t.payload, g.badFlowEntry(s, g.r.Range(1, 4), g.r.Intn(2)))
-			t.label = "random-bad-flow"
+			t.label += "-bad-flow"
 		case 1:
 			t.payload = append(t.payload, g.dirEntry(s, aQuotas, quotaRel(2), badQuotaYAML(quotaRel(2)), true))
-			t.label = "random-bad-quota"
+			t.label += "-bad-quota"
 		case 2:
 			t.payload = append(t.payload, g.gatewayEntry(s, badGatewayYAML()))
-			t.label = "random-bad-gateway"
+			t.label += "-bad-gateway"
 		case 3:
 			t.payload = append(t.payload, g.metricsEntry(s, badMetricsYAML()))
-			t.label = "random-bad-metrics"
+			t.label += "-bad-metrics"
 		case 4:
 			if len(t.payload) > 0 {
 				t.payload[g.r.Intn(len(t.payload))].Decodable = false
-				t.label = "random-undecodable"
+				t.label += "-undecodable"
 			}
 		}
 	}
@@ -395,7 +422,7 @@ func (g *gen) rebuild(s *sut, k *Case) {
 func generate(o *c.Out, s *sut) {
 	g := newGen(o.Rng.Fork(8))
 	triples := g.fixed(s)
-	for i := 0; i < o.Scale(24, 560, 300); i++ {
+	for i := 0; i < o.Scale(24, 560, 150); i++ {
 		triples = append(triples, g.random(s))
 	}
 	for _, t := range triples {
@@ -406,12 +433,9 @@ func generate(o *c.Out, s *sut) {
 		}
 		n := len(k.HookSeq)
 		for f := 0; f < n; f++ {
-			kf := s.caseOf(t, f)
-			s.runCase(o, kf)
-			if len(kf.HookSeq) > n && f == n-1 {
-				// the failing run reached hook calls the fault-free one never made
-				// (roll-back): they cannot be hit by this single fault, nothing to add
-			}
+			// hook calls a failing run makes beyond those of the fault-free run belong
+			// to its roll-back; the single fault is spent by then, nothing to add
+			s.runCase(o, s.caseOf(t, f))
 		}
 	}
 }
